@@ -12,7 +12,8 @@ HARNESSES = [
      ("gt_ge", "gt_lt", "gt_le", "ge_gt", "ge_lt", "ge_le", "lt_gt", "lt_ge", "lt_le", "le_gt", "le_ge", "le_lt")] + [
     ("c08_float_bounds_%s" % p, "two validators (%s), all non-NaN f64 values" % p) for p in
      ("gt_ge", "gt_lt", "gt_le", "ge_lt", "ge_le", "lt_le", "lt_gt", "le_ge", "fin_lt", "gt_fin")] + [
-    ("c08_duplicate_validators", "lists of 3 validators (symbolic kinds): same kind twice"),
+] + [("c08_duplicates_%s" % p, "list of 3 validators, kinds %s, symbolic values" % p) for p in
+     ("adjacent_front", "adjacent_back", "non_adjacent", "non_adjacent_fin", "none", "none2")] + [
     ("c08_string_len_bounds", "len_char_min / len_char_max / not_empty pairs, all usize values"),
     ("c08_string_sanitizers", "pairs of trim / lowercase / uppercase sanitizers"),
 ]
